@@ -71,7 +71,9 @@ type c08Case struct {
 	Edge  int        `json:"edge"` // >= 0: use the GLV edge scalar with this index instead of S
 	Alias string     `json:"alias"`
 	Noise uint64     `json:"noise,omitempty"`
-	Recv  string     `json:"recv,omitempty"` // what a fresh (non-aliased) receiver holds before the call
+	Recv  string     `json:"recv,omitempty"`  // what a fresh (non-aliased) receiver holds before the call
+	Rel   string     `json:"rel,omitempty"`   // Q derived from P (held in its own object, in Q's representation): same | neg | double | triple | plus_gen
+	RelS  string     `json:"rel_s,omitempty"` // T derived from S: neg (s+t = r) | same | neg_plus1
 }
 
 var c08Ops = []string{"add", "sub", "double", "neg", "mul", "mul", "addmixed", "set", "setidentity", "laws", "laws"}
@@ -87,6 +89,12 @@ func genC08(t *rapid.T) c08Case {
 	}
 	if rapid.IntRange(0, 2).Draw(t, "use_edge") == 0 {
 		c.Edge = rapid.IntRange(0, len(glvEdgeScalars())-1).Draw(t, "edge")
+	}
+	if rapid.IntRange(0, 2).Draw(t, "related") == 0 { // operands that stand in a relation to one another
+		c.Rel = rapid.SampledFrom([]string{"same", "neg", "neg", "double", "triple", "plus_gen"}).Draw(t, "rel")
+	}
+	if rapid.IntRange(0, 3).Draw(t, "related_s") == 0 {
+		c.RelS = rapid.SampledFrom([]string{"neg", "same", "neg_plus1"}).Draw(t, "rel_s")
 	}
 	return c
 }
@@ -107,6 +115,31 @@ func evalC08(c c08Case, rec *hx.Rec) error {
 	}
 	rp, rq := c.P.point(), c.Q.point()
 	s, t := c.scalar(), c.T.value()
+	if c.Rel != "" {
+		base := c.P
+		base.Rep, base.Lambda = 0, 0
+		b := base.point()
+		switch c.Rel {
+		case "neg":
+			b = hx.G.Neg(b)
+		case "double":
+			b = hx.G.Add(b, b)
+		case "triple":
+			b = hx.G.Add(hx.G.Add(b, b), b)
+		case "plus_gen":
+			b = hx.G.Add(b, hx.G.Generator())
+		}
+		rq = hx.Rep(b, c.Q.Rep, c.Q.Lambda)
+		rec.Label("rel=" + c.Rel + fmt.Sprintf("/qrep=%d", c.Q.Rep))
+	}
+	switch c.RelS {
+	case "neg":
+		t = ref.FrNeg(s)
+	case "same":
+		t = new(big.Int).Set(s)
+	case "neg_plus1":
+		t = ref.FrAdd(ref.FrNeg(s), big.NewInt(1))
+	}
 	p, q := hx.ToImpl(rp), hx.ToImpl(rq)
 	p1, p2 := &p, &q
 	recv := new(banderwagon.Element)
